@@ -6,7 +6,7 @@ MAXK = 512
 KEYS = ['a', 'b', 'c', 'd', 'e', 'key-6', 'k7']
 WIDE_KEYS = KEYS + [f'z{i}' for i in range(80)]      # enough distinct keys for the thread-local table to rehash several times
 # operations during which the executing thread's collector cannot run (no registration of a new object)
-QUIET_OPS = {'tget', 'tmem', 'x', 'lookup', 'pub', 'perr', 'lock', 'trylock', 'winc', 'unguarded', 'rd', 'spawn', 'join', 'disabled'}
+QUIET_OPS = {'tget', 'tmem', 'x', 'lookup', 'pub', 'perr', 'lock', 'trylock', 'winc', 'unguarded', 'rd', 'spawn', 'join', 'selfjoin', 'disabled'}
 ERRNOS = ['0', 'EINVAL', 'EDEADLK', 'EBUSY', 'EPERM', 'ESRCH', 'EAGAIN']
 NK = 6
 
@@ -59,10 +59,10 @@ def gen_schedule(rng, nworkers, nevents, mode, flavour, managed=0.0, foreign_mar
     lines = [f'M {mode}', f'N {nworkers}', f'S {rng.randrange(1 << 30)}']
     out = lines.append
     w = dict(new=6, newroot=1, newx=2, del_=3, xdel=1, gc=2, churn=2, tset=3, tget=3, tmem=1, trem=2, x=4, lookup=3, pub=2, perr=1,
-             work=0, lock=4, trylock=3, winc=3, unguarded=1, rd=1, spawn=3, join=2, end=1, disabled=1)
+             work=0, lock=4, trylock=3, winc=3, unguarded=1, rd=1, spawn=3, join=2, selfjoin=1, end=1, disabled=1)
     if flavour == 'locks': w.update(lock=12, trylock=8, winc=8, new=2, x=1, unguarded=3)
     if flavour == 'gc': w.update(new=12, del_=6, gc=6, churn=5, tset=6, trem=4, lock=1, trylock=1, winc=1)
-    if flavour == 'exn': w.update(x=16, perr=3, tget=5, trem=4)
+    if flavour == 'exn': w.update(x=16, perr=3, tget=5, trem=4, selfjoin=3)
     if flavour == 'work': w.update(work=8, churn=3)
     if free: w.update(unguarded=0, disabled=0, work=max(w['work'], 2))
     spawned = []
@@ -132,7 +132,11 @@ def gen_schedule(rng, nworkers, nevents, mode, flavour, managed=0.0, foreign_mar
                 if rng.random() < 0.8: out(f'{T} rd {u.tid}'); out(f'{T} rdo {u.tid}'); n += 2
             elif not free and rng.random() < 0.3:
                 u = rng.choice(th[1:]) if nworkers else None
-                if u and not u.joined and not u.gone and u.tid != T: out(f'{T} join {u.tid}'); n += 1       # blocked or nothread (never join(current(Thread)): KF-C13-join-edeadlk)
+                if u and not u.joined and not u.gone and u.tid != T: out(f'{T} join {u.tid}'); n += 1       # blocked or nothread
+        elif op == 'selfjoin':
+            # join(current(Thread)): pthread_join(self) = EDEADLK -> ResourceError (fix 484991f), in both modes: it never blocks
+            if T == 0 or t.gone: continue
+            out(f'{T} join {T}'); n += 1
         elif op == 'end':
             if T == 0 or t.held or t.try_open or t.pending_ld is not None or t.nops < 6: continue
             if rng.random() < 0.5: continue
@@ -294,38 +298,41 @@ class C13(Spec):
     harness_timeout = 90
     technique = ('Lean 4 proofs by induction over arbitrary schedules of a model of the thread bookkeeping (per-thread components reached only '
                  'through current(Thread) - except by the mark phase, which walks the thread-local table of every collector-managed Thread object it reaches, '
-                 'and by the sweep that frees such an object: both modelled; holder machine for Mutex, join enabled after the epilogue); model tied to the code by replaying scripted '
+                 'and by the sweep that frees such an object: both modelled; the repaired defect (Thread_Join ignoring EDEADLK) and the withdrawn repair (Thread_Mark guarded by self is current(Thread)) are kept as explicit '
+                 'variants selected by switches read from the source; holder machine for Mutex, join enabled after the epilogue); model tied to the code by replaying scripted '
                  'interleavings on real Cello threads event by event, and by free-running 2-16 real threads under schedule noise with a direct oracle')
     level_text = ('Theorems over ALL schedules (any number of threads, any interleaving, any per-thread programs; a schedule is any list of (thread, event)): '
                   'C13_noninterference / C13_schedule_independent (under the decidable hypothesis Isolated: no collection meets the collector-managed Thread object - var x = new(Thread, f) - '
                   'of a thread that is running or has thread-local values, no sweep frees the Thread object of a live thread; C13_isolated_without_managed_threads / C13_noninterference_raw: '
                   'unconditional when every struct Thread is raw; REFUTED without it, C13_noninterference_refuted = KF-C13-mark-foreign-tls: GC_Recurse -> Thread_Mark walks the table of any '
-                  'Thread object the mark phase meets) - each thread\'s final component (collector registry, exception record, thread-local table, ledger of '
+                  'Thread object the mark phase meets; C13_noninterference_guarded_variant / C13_guarded_variant_loses_objects: with the withdrawn repair 80c795e - Thread_Mark guarded by self is current(Thread) - '
+                  'the full statement holds in the model, but an object held only through the table of a Thread object that is not running is finalised while the table still holds it, which is why commit 0a0ad73 withdrew it) '
+                  '- each thread\'s final component (collector registry, exception record, thread-local table, ledger of '
                   'finalised objects) and every outcome of its local operations equal those of the thread running alone on its projection of the execution, whatever the '
                   'others do and whatever the shared class cache contains (C13_cache_transparent); C13_frame - a step of one thread changes no other thread\'s component; '
                   'C13_exn_isolated - an exception program of one thread yields the structured-exception trace of C07 and touches no other thread; C13_mutex / C13_with_exclusive - '
                   'at every point of every UB-free schedule at most one thread is inside sections of one Mutex (lock/unlock, trylock, with) and it is the holder; '
-                  'C13_counter_exact - non-atomic increments made inside sections are never lost; C13_join / C13_join_partial / C13_join_publishes - every step of a run of t precedes the return of '
-                  'join t by another thread and every later read (until the Thread object is called again) yields t\'s final published value (= its solo value); C13_join_refuted = KF-C13-join-edeadlk: '
-                  'join(current(Thread)) returns at once (EDEADLK ignored, C13_join_edeadlk_ignored about the extracted table); C13_join_publishes_own_object - a result object the thread allocated is '
+                  'C13_counter_exact - non-atomic increments made inside sections are never lost; C13_join / C13_join_full / C13_join_current_source / C13_join_publishes - every step of a run of t precedes the return of '
+                  'join t by any thread and every later read (until the Thread object is called again) yields t\'s final published value (= its solo value); join(current(Thread)) raises ResourceError '
+                  '(C13_join_self_raises, C13_join_edeadlk_raises about the extracted table, C13_join_repair_in_current_source); the OLD variant without the EDEADLK case is refuted: C13_join_old_refuted, was KF-C13-join-edeadlk, fixed by 484991f; C13_join_publishes_own_object - a result object the thread allocated is '
                   'usable by the joiner iff the thread\'s collector had not finalised it; C13_join_publishes_object_refuted = KF-C13-join-result-finalised: the teardown finalises every object made with plain new; C13_teardown_own / C13_teardown_step / C13_foreign_del - a collector (del, '
                   'collection, the teardown in Thread_Init_Run) only ever finalises objects its own thread allocated; C13_teardown_survives_destructor_exceptions - with the epilogue '
                   'order of the current source (collector before exception record, read from the source on every run) no del, collection or thread teardown ever runs a destructor '
-                  'without the thread\'s exception record (C13_teardown_old_order_refuted: the order before commit 7de4bbc crashes on a 4-event schedule). C13_source_shape_as_modelled and '
+                  'without the thread\'s exception record (C13_teardown_old_order_refuted: the order before commit 7de4bbc crashes on a 4-event schedule). C13_source_shape_as_modelled, C13_join_repair_in_current_source and '
                   'C13_error_translation_current_source re-check on every run that the 32 source fragments the model mirrors (Thread_Current, GC_Current, Exception_Current, '
                   'Thread_Init_Run, Thread_Mark and its instance, Thread_Del, Thread_Assign, the Mark dispatch of GC_Recurse, GC_New/Del, alloc_by/del_by, start_in/stop_in/with, Mutex_*, Thread_Join, the cache macro) and the pthread error translation are the text '
                   'the model was written against. The model is tied to /repo by executing scripted interleavings on real Cello threads (baton) comparing every event outcome, '
                   'and by free-running 2-16 real threads under schedule noise comparing all local outcomes plus digest-vs-solo, ledger, in-section, counter and join oracles.')
     level_note = ('PARTIAL by nature: the theorems are about the bookkeeping (per-thread state is reached only through current(Thread) - frame, join and mutex theorems read back that '
                   'shape of the model, which is tied to the code by the extracted source texts and the correspondence runs; Mutex = holder machine; join after '
-                  'the epilogue) in a sequentially consistent model at operation granularity. Three known findings, each with its full statement kept and refuted in the model: '
-                  'KF-C13-mark-foreign-tls, KF-C13-join-result-finalised, KF-C13-join-edeadlk. Not exhibited by the model and covered only by running: real data races (the walk of a foreign '
+                  'the epilogue) in a sequentially consistent model at operation granularity. Two known findings, each with its full statement kept and refuted in the model: '
+                  'KF-C13-mark-foreign-tls, KF-C13-join-result-finalised (KF-C13-join-edeadlk is repaired: full statement proved for the current source, OLD variant refuted). Not exhibited by the model and covered only by running: real data races (the walk of a foreign '
                   'thread-local table is an atomic read in the model; `races` counts where it would be a race) '
                   'and memory-model effects, the pthread implementation, signals, the conservative stack scan (a collection is modelled with an arbitrary marked set). '
                   'Trusted: Lean kernel; harness/h_thr.c + lean/Driver/Thr.lean comparison (testing); pthread and libc.')
     rule = ('op files are schedules (tid, op): (a) scripted interleavings (mode sched) of 1-8 workers + main generated by simulating the lock/join machine, including '
             'objects whose destructors do try/throw/catch, Thread objects that are called again after being joined, Thread objects made the documented way by main (newthr: new(Thread, f) kept in a stack '
-            'variable; the maker\'s collections - explicit and the real threshold collections - then walk that worker\'s thread-local table, which in half of the cases holds up to 87 distinct keys and refers to the maker\'s objects), result objects handed to the joiner (pubo/rdo), deliberately disabled events (blocked lock/join, unlock by a non-holder, ops of unborn/finished threads, reused serials, ill-formed lines), executed on real '
+            'variable; the maker\'s collections - explicit and the real threshold collections - then walk that worker\'s thread-local table, which in half of the cases holds up to 87 distinct keys and refers to the maker\'s objects), threads that join themselves (ResourceError), result objects handed to the joiner (pubo/rdo), deliberately disabled events (blocked lock/join, unlock by a non-holder, ops of unborn/finished threads, reused serials, ill-formed lines), executed on real '
             'Cello threads in exactly that order; every event outcome is compared with the model; (b) free-running schedules (mode free) of 2-16 real threads with yields/spins '
             'at op boundaries, in malloc/calloc and in the pthread calls: all local outcomes are compared with the model, synchronisation outcomes are masked; workloads '
             '(container-, allocation-, exception-, TLS-heavy) are compared with their solo digests. non-trivial = at least two threads ran and the case contains a contended '
@@ -340,7 +347,7 @@ class C13(Spec):
                    'word-sized stores to the class cache are atomic (the cache stores only the declared instance)',
                    'KF-C13-mark-foreign-tls: outside the baton (free-running cases) the thread that made a worker\'s Thread object with new(Thread, f) executes no operation that can collect between call and join of that worker (the driver\'s `races` count is checked to be 0 on every free-running case); only main makes such Thread objects; Thread objects are not stored as thread-local values',
                    'KF-C13-join-result-finalised: result objects handed to the joiner (pubo) are roots that are never deleted',
-                   'KF-C13-join-edeadlk: no thread joins itself; mutual joins are not generated (glibc 2.36 deadlocks on them)',
+                   'mutual joins are not generated (glibc 2.36 deadlocks on them instead of reporting EDEADLK)',
                    'arguments handed to a thread are raw objects (Thread_Call stores a raw copy of the tuple; nobody marks what it refers to)')
     def cases(self, rng, tier, boost=1):
         quick = tier == 'quick'
